@@ -51,6 +51,7 @@ var (
 	tags    = flag.String("tags", "verif", "build tags")
 	goBin   = flag.String("go", "go1.26.8", "go binary")
 	extra   = flag.String("overlay-extra", "", "JSON file with additional overlay entries to merge")
+	osredir = flag.String("osredirect", "", "comma separated pkg/file.go whose import of \"os\" is redirected to the simulated disk")
 )
 
 func main() {
@@ -117,7 +118,11 @@ func check(err error) {
 }
 
 func goList(paths []string) (map[string]string, map[string]*listPkg) {
-	args := append([]string{"list", "-export", "-deps", "-json=ImportPath,Dir,Export,GoFiles,Standard", "-tags", *tags}, paths...)
+	args := []string{"list", "-export", "-deps", "-json=ImportPath,Dir,Export,GoFiles,Standard", "-tags", *tags}
+	if *extra != "" {
+		args = append(args, "-overlay", *extra)
+	}
+	args = append(args, paths...)
 	cmd := exec.Command(*goBin, args...)
 	cmd.Dir = *modDir
 	cmd.Stderr = os.Stderr
@@ -157,6 +162,7 @@ type rewriter struct {
 	stats   map[string]int
 	tmp     int
 	dropped map[string]string
+	redirected bool
 }
 
 func instrumentPackage(lp *listPkg, level int, fileLevels map[string]int, exports map[string]string, overlay map[string]string, stats map[string]int) {
@@ -219,10 +225,24 @@ func instrumentPackage(lp *listPkg, level int, fileLevels map[string]int, export
 		}
 		rw := &rewriter{fset: fset, info: info, pkg: pkg, file: af, fname: names[i], rel: rel + "/" + filepath.Base(names[i]), level: lv, stats: stats}
 		rw.run()
-		if !rw.used {
+		for _, r := range strings.Split(*osredir, ",") {
+			if r != "" && r == rel+"/"+filepath.Base(names[i]) {
+				for _, im := range af.Imports {
+					if im.Path.Value == `"os"` {
+						im.Path.Value = `"specterverif/simfs/shimos"`
+						im.Name = ast.NewIdent("os")
+						rw.redirected = true
+						stats["osredirect"]++
+					}
+				}
+			}
+		}
+		if !rw.used && !rw.redirected {
 			continue
 		}
-		addImport(af, simrtPath, "simrt")
+		if rw.used {
+			addImport(af, simrtPath, "simrt")
+		}
 		var buf bytes.Buffer
 		check(format.Node(&buf, fset, af))
 		dst := filepath.Join(*outDir, "src", rel, filepath.Base(names[i]))
